@@ -204,6 +204,48 @@ def every_line_written(rep, F, rule="literal-block-every-line-written"):
     return n
 
 
+class _FlagRec(e8.SymRec):
+    """paths of an emitter function with the option as the only symbol; values of private enums built on the way are carried along (E8), so
+    a decision taken early and dispatched on later (`let style = ...; match style { Literal => ... }`) is followed"""
+    def __init__(self, f, target_bb):
+        super().__init__(f)
+        self.target_bb = target_bb
+        self.domains = {("ms",): [0, 1]}
+
+    def _ms(self, v):
+        return v[0] == "proj" and v[2] == "field" and v[3] == "multiline_strings"
+
+    def leaf(self, v):
+        return ("ms",) if self._ms(v) else None
+
+    def interp(self, v, env):
+        if self._ms(v) and ("ms",) in env:
+            return env[("ms",)]
+        return None
+
+    def call_effect(self, bi, t, ck, st):
+        if bi == self.target_bb:
+            return "stop"
+        return "transparent"
+
+
+def _reached_only_with_flag_on(f, call_bb):
+    """every path from the entry of f to the call in call_bb has taken the true edge of a test of self.multiline_strings"""
+    rec = _FlagRec(f, call_bb)
+    try:
+        ps = e7.paths(f, 0, rec, limit=60000)
+    except RuntimeError:
+        return False
+    hits = [p for p in ps if p["why"].startswith("call ") and p.get("end") in (call_bb, None) and p["why"].endswith("emit_literal_block")]
+    if not hits:
+        return False
+    for p in hits:
+        c = p["guards"].get(("ms",))
+        if c is None or c.admits(0):
+            return False
+    return True
+
+
 def not_for_keys(rep, F, rule="simple-key-not-a-block-scalar"):
     n = 0
     # (i) emit_literal_block only under self.multiline_strings
@@ -221,6 +263,8 @@ def not_for_keys(rep, F, rule="simple-key-not-a-block-scalar"):
                     m, other = cfg.switch_edge_blocks(f, d)
                     if other is not None and (bb == other or cfg.dominated_by_edge(f, bb, d, other)):
                         ok = True
+            if not ok:
+                ok = _reached_only_with_flag_on(f, bb)
             rep.check(ok, rule, "%s->emit_literal_block" % short(k), "a literal block is emitted without `self.multiline_strings` having been tested", site=site(f, t["sp"]))
     # (ii) the simple-key branch of emit_mapping emits the key with the flag off
     em = F.fns.get(EMITTER + "::emit_mapping")
